@@ -159,12 +159,74 @@ def run_c11_tables(v, tier, seed, rng):
     return len(cases)
 
 
+def mailbox_probe(v, prop, tier, seed, cases=None):
+    """Mailbox.tla (C09): a peer's events reach the torrent in the order produced, whatever the mailbox holds.
+    Behaviours: TLC-simulated complete runs of the specification, and every schedule of at most 12 steps on which the
+    deviation "mailbox_first" delivers out of order, replayed on a real peer.Run and a stepped real torrent."""
+    rng = random.Random(seed + 5)
+    if cases is None:
+        r = run_tlc("Mailbox", "Mailbox_mc.cfg", workers=4, timeout=600)
+        require_ok(r, "Mailbox model checking")
+        v.add_tlc("Mailbox_mc.cfg", r)
+        r = run_tlc("MCMailbox", "Mailbox_dev.cfg", workers=1, timeout=900)
+        require_ok(r, "Mailbox deviation schedules")
+        bad = sorted(set(r.lines("BEH")))
+        os.unlink(r.outfile)
+        if len(bad) < 50:
+            raise Internal("Mailbox_dev.cfg: the deviation is not refuted (%d schedules)" % len(bad))
+        rng.shuffle(bad)
+        bad = bad[:120 if tier == "quick" else 1500]
+        n = 150 if tier == "quick" else 3000
+        r = run_tlc("MCMailbox", "Mailbox_sim.cfg", workers=1, simulate=n, depth=40, seed=seed, timeout=1800)
+        require_ok(r, "Mailbox simulation")
+        sims = sorted(set(r.lines("BEH")))
+        os.unlink(r.outfile)
+        if len(sims) < n // 3:
+            raise Internal("Mailbox simulation: only %d behaviours" % len(sims))
+        cases = [{"kind": "mailbox", "cap": 2, "mb": json.loads(p), "binding": "mailbox"} for p in bad + sims]
+        for i, c in enumerate(cases):
+            c["id"] = 20000 + i
+        v.cov["mailbox"] = {"deviation_schedules": len(bad), "simulated_runs": len(sims),
+                            "rule": "Mailbox.tla schedules on a real peer.Run over net.Pipe (goroutine held at the writeEvent yield point), harness-owned mailbox of capacity 2, "
+                                    "events handled by a stepped real torrent in the order taken; availability is zero once the peer has left"}
+    vh = vlib.build_harness()
+    wd = vlib.scratch("mbx-")
+    sf, rf = os.path.join(wd, "cases.ndjson"), os.path.join(wd, "res.ndjson")
+    with open(sf, "w") as f:
+        for c in cases:
+            f.write(json.dumps(c, separators=(",", ":")) + "\n")
+    out, err = vlib.run_harness(vh, ["c11x", "-in", sf, "-out", rf, "-parallel", "12", "-timeout", "60"], timeout=3600)
+    log(out.strip())
+    for line in open(rf):
+        res = json.loads(line)
+        c = cases[res["index"]]
+        if res.get("crash") or res.get("hang"):
+            st = res.get("stderr", "")
+            first = [x for x in st.splitlines() if x.startswith(("panic", "fatal"))][:1]
+            if res.get("hang"):
+                raise Internal("mailbox case %s hung: %s" % (c["id"], st[-400:]))
+            v.violation("handler-crash", "the process crashed in mailbox case %s: %s" % (c["id"], first), c)
+            continue
+        o = res["out"]
+        if o.get("note") and not o.get("violations"):
+            raise Internal("mailbox case %s: %s" % (c["id"], o["note"]))
+        for vi in o.get("violations") or []:
+            if vi["prop"] == prop:
+                v.violation(vi["key"], vi["what"], c)
+        for nc in o.get("nonconf") or []:
+            v.warn("nonconformance: mailbox case %s: %s" % (c["id"], nc))
+    return len(cases)
+
+
 def run(prop, tier, seed, replay=None):
     v = Verdict(prop, tier, seed)
     v.assumptions = ["binding B2: the real handlers are stepped synchronously, the mailboxes between torrent and peers are consumed in the order "
                      "the TLC behaviour says; the Run loop's exit path and select races are not exercised here",
                      "geometry: 2 pieces of 2+1 blocks, the last block short or full, and 2 pieces of 3+1 blocks (piece length not a power of two); 2 peers (one with, one without the fast extension)",
                      "maybeRequest's pipelining (rate dependent) is nondeterministic in the specification"]
+    if replay and json.load(open(replay))["scenario"].get("binding") == "mailbox":
+        mailbox_probe(v, prop, tier, seed, [json.load(open(replay))["scenario"]])
+        return v.finish()
     if replay and json.load(open(replay))["scenario"].get("binding") == "webseed":
         import p_webseed
         p_webseed.full_path_probe(v, prop, tier, seed, [json.load(open(replay))["scenario"]])
@@ -209,6 +271,10 @@ def run(prop, tier, seed, replay=None):
         v.cov["states"] += r.distinct
         v.cov["transitions"] += r.generated
     v.cov["traces_validated_against_impl"] = len(scen)
+    if prop == "C09" and not replay:
+        # "once events in transit have been processed": the order in which a live peer's events reach the torrent
+        n = mailbox_probe(v, prop, tier, seed)
+        v.cov["traces_validated_against_impl"] += n
     if prop == "C09" and not replay:
         # the blocks reserved for web-seed fetches are part of the same bookkeeping
         import p_webseed
